@@ -46,6 +46,10 @@ type Tunnel struct {
 	// LastSeen is when the server received the last packet from the client
 	LastSeen time.Time
 
+	// pending holds bytes received from transportIn that are not yet part
+	// of a complete packet
+	pending []byte
+
 	// writeMu serialises Write: the packet loop and the goroutine relaying
 	// data from the remote desktop server both write to transportOut
 	writeMu sync.Mutex
@@ -64,7 +68,7 @@ func (t *Tunnel) Write(pkt []byte) {
 // packet, with the header removed, and the packet size. It updates the
 // statistics for bytes received
 func (t *Tunnel) Read() (pt int, size int, pkt []byte, err error) {
-	pt, size, pkt, err = readMessage(t.transportIn)
+	pt, size, pkt, err = readMessage(t.transportIn, &t.pending)
 	t.BytesReceived += int64(size)
 	t.LastSeen = time.Now()
 
